@@ -52,6 +52,13 @@ def parseInfo (s : String) : Option (Nat × IngressInfo) :=
     some (← id.toNat?, ⟨← decOpt unit, ← natOpt parent, rawOpt addr, ← natOpt asn, ← decOpt filename, ← decOpt name, ← decOpt desc⟩)
   | _ => none
 
+def parseEv (s : String) : Option Ev :=
+  if s.startsWith "I" then (parseInfo (s.drop 1).toString).map fun (id, i) => .info id i
+  else (parseUpd s).map .upd
+
+def parseEvs (s : String) : Option (List Ev) :=
+  if s == "-" then some [] else (s.splitOn ";").mapM parseEv
+
 def showLine : Line → String
   | .text l => "T" ++ esc l
   | .route p => "R" ++ String.ofList p
@@ -71,9 +78,9 @@ def runCase (v : Variant) (line : String) : String :=
       | .ok ls => "ok " ++ "|".intercalate (ls.map showLine)
     | _, _ => "bad-case"
   | ["mqtt", comp, tmpl, reg, us] =>
-    match decStr comp, decStr tmpl, (if reg == "-" then some [] else (reg.splitOn ";").mapM parseInfo), parseUpds us with
-    | some comp, some tmpl, some reg, some us =>
-      match us.flatMap (directUpdate comp tmpl reg) with
+    match decStr comp, decStr tmpl, (if reg == "-" then some [] else (reg.splitOn ";").mapM parseInfo), parseEvs us with
+    | some comp, some tmpl, some reg, some evs =>
+      match session comp tmpl reg evs with
       | [] => "ok -"
       | out => "ok " ++ "|".intercalate (out.map fun (t, p) => esc t ++ " " ++ showPayload p)
     | _, _, _, _ => "bad-case"
